@@ -28,6 +28,7 @@ use crate::parser::position::Position;
 use crate::parser::vfs::{to_project_relative, Vfs};
 use crate::parser::{parse_toplevel_items, parse_toplevel_items_from_span, ParseError};
 use crate::to_abs_path;
+use crate::values::Value;
 
 type RequestId = usize;
 
@@ -657,9 +658,10 @@ fn handle_run_request(
                     eval_to_response(env, session)
                 }
                 Err(CommandError::Action(EvalAction::Skip)) => {
+                    let restored_values = std::mem::take(&mut env.values_restored_by_last_error);
                     let stack_frame = env.stack.0.last_mut().unwrap();
 
-                    if stack_frame.exprs_to_eval.pop().is_none() {
+                    let Some((_, skipped_expr)) = stack_frame.exprs_to_eval.pop() else {
                         return Response {
                             kind: ResponseKind::RunCommand {
                                 message: "Nothing to skip: no expression is pending in this stack frame."
@@ -669,6 +671,17 @@ fn handle_run_request(
                             position: None,
                             id,
                         };
+                    };
+
+                    // Keep the value stack consistent: drop the
+                    // operands that the failed step put back, and
+                    // give the skipped expression a value if its
+                    // parent expects one.
+                    for _ in 0..restored_values {
+                        stack_frame.evalled_values.pop();
+                    }
+                    if skipped_expr.value_is_used {
+                        stack_frame.evalled_values.push(Value::unit());
                     }
 
                     eval_to_response(env, session)
